@@ -365,7 +365,7 @@ class FakeSelector(L_selectors.SelectorBase):
     def __init__(self, sock):
         super(FakeSelector, self).__init__(sock)
         self.closed = False
-        w = current()
+        w = self.w = current()
         w.selectors.append(self)
         w.log(getattr(sock, 'conn', None), 'selector', None)
 
@@ -373,11 +373,11 @@ class FakeSelector(L_selectors.SelectorBase):
         return '<FakeSelector>'
 
     def wait_readable(self, timeout=0.0):
-        return current().wait_readable(self._socket, timeout)
+        return self.w.wait_readable(self._socket, timeout)
 
     def close(self):
         self.closed = True
-        current().log(getattr(self._socket, 'conn', None), 'selector-close', None)
+        self.w.log(getattr(self._socket, 'conn', None), 'selector-close', None)
 
 
 # ----------------------------------------------------------------------------- locks
